@@ -322,6 +322,10 @@ def _move(case, rng):
     from elastica.rod.data_structures import overload_operator_kinematic_numba as kin
 
     b = case.body
+    if rng.random() < 0.5:
+        # finalize()-like: the body's array attributes are REBOUND to other array objects (same values) after the grid was built
+        if bodies.rebind_arrays(b):
+            case.meta["rebound"] = True
     h = float(10 ** rng.uniform(-3, -1.3))
     kin(np.float64(h), b.position_collection, b.director_collection, b.velocity_collection, b.omega_collection)
     if case.family == "rod":
@@ -425,6 +429,8 @@ def run_shard(sh, rec):
             if state:
                 _move(case, rng)
                 rec.count("states_after_motion")
+                if case.meta.get("rebound"):
+                    rec.count("states_after_body_arrays_rebound_like_finalize")
                 if case.meta.get("stretched"):
                     rec.count("rod_states_after_cross_section_change")
                     if kind in ("surface3d", "surfacecap3d", "edge2d") and case.meta.get("radius_change_max", 0) > 0.05:
